@@ -485,7 +485,7 @@ def history_judge(case, impl_line, prop):
                 if pp in live and live[pp] != 0:
                     for (t, ep) in ss:
                         if ep == X: exp.append(("bystream", pp, t, X)); owners.append(pp)
-            bad = None
+            bad = None; is_stale = False
             if len(exp) >= 2 and assigned.get(X) in exp: exp = [assigned[X]]      # a PID with two roles: the later application wins
             if exp:
                 if req not in exp: bad = f"the latest valid PAT/PMT call for {exp}"
@@ -493,10 +493,10 @@ def history_judge(case, impl_line, prop):
                 tp, kind = stale[X]
                 if req and req[0] == kind and (kind != "bystream" or req[1] == tp):
                     bad = f"that PID was dropped by a newer version of the table on PID {tp} and must no longer go to the handler it installed"
-                    owners = [tp]
+                    owners = [tp]; is_stale = True
             if bad:
                 if X in shared_ever: known = known or "F7"
-                elif any(o in recreated for o in owners): known = known or "F8"
+                elif is_stale and any(o in recreated for o in owners): known = known or "F8"      # F8: a dropped PID keeps its old handler
                 elif known == "F2": pass               # routing after a blocked table (F2) follows the older table
                 else:
                     return ("violation", f"probe on PID {X} (packet {rc['idx']}) was handled by a handler built from {req}; {bad}")
